@@ -1201,7 +1201,19 @@ def _ss_copy(m, o, args, kw, node):
     return SymSet(o.ktype, o.has, o.card)
 
 
-SYMSET_METHODS = {"add": _ss_add, "remove": _ss_remove, "discard": _ss_discard, "copy": _ss_copy}
+def _ss_update(m, o, args, kw, node):
+    for a in args:
+        for x in m.iter_concrete(a, node):
+            _ss_add(m, o, [x], {}, node)
+
+
+def _ss_difference_update(m, o, args, kw, node):
+    for a in args:
+        for x in m.iter_concrete(a, node):
+            _ss_discard(m, o, [x], {}, node)
+
+
+SYMSET_METHODS = {"add": _ss_add, "remove": _ss_remove, "discard": _ss_discard, "copy": _ss_copy, "update": _ss_update, "difference_update": _ss_difference_update}
 
 
 # -- SortedList (trusted library contract) ------------------------------------------
